@@ -648,7 +648,19 @@ public:
 
   void rename(const variable_vector_t &from,
               const variable_vector_t &to) override {
-    CRAB_WARN(domain_name(), "::rename not implemented");
+    if (is_bottom() || is_top()) {
+      return;
+    }
+    // rename the variables together with their ghost variables
+    variable_vector_t all_from(from);
+    variable_vector_t all_to(to);
+    for (unsigned i = 0, sz = from.size(); i < sz && i < to.size(); ++i) {
+      for (auto coefficient : crab_domain_params_man::get().coefficients()) {
+        all_from.push_back(get_ghost_var(from[i], coefficient));
+        all_to.push_back(get_ghost_var(to[i], coefficient));
+      }
+    }
+    m_base_absval.rename(all_from, all_to);
   }
 
   void expand(const variable_t &var, const variable_t &new_var) override {
